@@ -165,7 +165,16 @@ impl World {
         if PATHS[path_idx].rel.ends_with(".bin") || PATHS[path_idx].rel.ends_with("Blob.ts") {
             BINARY_BLOB.to_vec()
         } else {
-            SNIPPETS[snippet_idx % SNIPPETS.len()].1.as_bytes().to_vec()
+            // indices >= 100 are the same snippets with two lines inserted on top (an unsaved edit
+            // that shifts every later position)
+            let body = SNIPPETS[(snippet_idx % 100) % SNIPPETS.len()].1.as_bytes();
+            if snippet_idx >= 100 {
+                let mut v = b"// edited\n// in the editor\n".to_vec();
+                v.extend_from_slice(body);
+                v
+            } else {
+                body.to_vec()
+            }
         }
     }
 
